@@ -77,10 +77,12 @@ PROPS = {
     ),
     "C12": dict(
         crate="mon_board", cmd="c12", level="exploration",
+        lanes={"quick": [], "thorough": ["fuzz"]}, fuzz_target="fen", fuzz_seconds=120, fuzz_replay={"kind": "c12"}, fuzz_replay_key="string",
+        fuzz_seeds=["rnbqkbnr/pppppppp/8/8/8/8/PPPPPPPP/RNBQKBNR w KQkq - 0 1", "r3k2r/8/8/3pP3/8/8/8/R3K2R w Kq d6 7 42", "8/8/8/8/8/8/8/K6k b - -", "4k3/8/8/8/8/8/8/4K2R w K - 130 90"],
         floors={"quick": {"positive_stream": 5000, "positive_four_field": 1000, "negative_mutant": 3000, "round_trips": 5000, "castle_rights_subset_*": 16, "unspecified_mutant": 100, "negative_random": 1000}},
         rule="positive: every stream position (all 16 castling-right sets, e.p. states, clocks up to u32::MAX) rendered by the reference writer in 6- and 4-field form must be accepted, decode square by square to the same position and be written back identically; "
              "negative: single/double character- and token-level mutants, targeted faults of each class the property lists and random UTF-8 strings, classified by the reference's strict reader as invalid (must be rejected), valid (treated as positive) or unspecified (only: no panic); "
-             "every entry point (Fen::from_str, Fen::is_valid, Bitboard::from_fen_string, Fen::from(&Bitboard)) is wrapped in catch_unwind; distinct_nontrivial = distinct accepted legal positions + distinct rejected strings",
+             "every entry point (Fen::from_str, Fen::is_valid, Bitboard::from_fen_string, Fen::from(&Bitboard)) is wrapped in catch_unwind; thorough tier adds a coverage-guided lane (cargo-fuzz: libFuzzer + AddressSanitizer, 120 s, 8 forks) over a target carrying the same classification oracle; distinct_nontrivial = distinct accepted legal positions + distinct rejected strings",
         assumptions=BASE_ASSUME + ["strings whose status the property does not define (non-canonical castling order, e.p. rank other than 3/6, leading zeros, clocks wider than u32, full-move 0, 'startpos', odd white space) are only required not to panic"],
     ),
     "C13": dict(
@@ -102,10 +104,12 @@ PROPS = {
     ),
     "C15": dict(
         crate="mon_text", cmd="c15", level="exploration",
+        lanes={"quick": [], "thorough": ["fuzz"]}, fuzz_target="uci", fuzz_seconds=120, fuzz_replay={"kind": "c15-line"}, fuzz_replay_key="line",
+        fuzz_seeds=["go wtime 1 btime 2 winc 3 binc 4 movestogo 5 depth 6 nodes 7 mate 8 movetime 9 infinite ponder searchmoves e2e4 e7e8q", "position startpos moves e2e4 e7e5", "position fen r3k2r/8/8/3pP3/8/8/8/R3K2R w Kq d6 7 42 moves e5d6", "setoption name Hash value 128", "register name a b code c d", "debug on", "register later"],
         floors={"quick": {"positive_Go": 10000, "positive_Position": 10000, "positive_SetOption": 1000, "positive_Register": 1000, "positive_Debug": 1000, "negative_*": 50000, "fuzz_lines": 50000, "move_round_trips": 28672}},
         rule="positive: abstract command values (all 12 command kinds; every subset and permutation of the twelve go parameters with values from {0,1,2,2^31,2^63-1,2^64-1,random}; position startpos / 4- and 6-field FENs with 0-200 reference-legal moves; multi-word option / registration names) rendered by the monitor's own writer with 1-5 spaces between tokens and optional leading/trailing space, parsed, and compared field by field with the value they were rendered from; "
              "negative: lines with one injected fault of a listed class (unknown / upper-case / non-ASCII first word, missing parameter, bad / negative / out-of-range number, bad move token, bad FEN, duplicated go parameter, unknown go token) must parse to Err; "
-             "fuzz: random UTF-8, single and double mutants of valid lines, 1000-20000-move lines, and move tokens on their own must never panic; UciMove text round trip over all 64x64x7 values (exhaustive); distinct_nontrivial = distinct faulty lines + distinct go parameter orderings + distinct move texts",
+             "fuzz: random UTF-8, single and double mutants of valid lines, 1000-20000-move lines, and move tokens on their own must never panic; UciMove text round trip over all 64x64x7 values (exhaustive); thorough tier adds a coverage-guided lane (cargo-fuzz: libFuzzer + AddressSanitizer, 120 s, 8 forks) for the never-panics clause; distinct_nontrivial = distinct faulty lines + distinct go parameter orderings + distinct move texts",
         assumptions=BASE_ASSUME + ["over-long move tokens, tab separators, the null move 0000 in move lists, negative durations and trailing junk after complete commands are unspecified and only required not to panic"],
     ),
     "C17": dict(
